@@ -65,8 +65,9 @@ WAIT = [('R7', r'outstandingTaskCount_\.load\(std::memory_order_(\w+)\)', r'A_LO
         ('R17', r'(?<![\w.>])testAndResetException\(\)', 'WAIT_testAndResetException()'),
         # every loop of the wait functions spins on the count or on "was there something to run": partial-correctness loop contracts
         # (the loop condition may be any expression over those; the assigns clause lists the ghosts and whichever budget variable exists)
-        ('LC', r'(while\s*\((?:[^(){}]|\([^(){}]*\))*\))\s*\{', lambda m: m.group(1) + ' __CPROVER_assigns(g_counter, g_last_load_zero_acq, g_last_mo' +
-            ''.join(', ' + v for v in ('maxToExecute', 'maxToExe') if re.search(r'\b' + v + r'\b', m.group(1))) + ') __CPROVER_loop_invariant(' + ('maxToExe >= 0' if re.search(r'\bmaxToExe\b', m.group(1)) else '1') + ') {')]
+        ('LC', r'(while\s*\((?:[^(){}]|\((?:[^(){}]|\([^(){}]*\))*\))*\))\s*\{', lambda m: m.group(1) + ' __CPROVER_assigns(g_counter, g_last_load_zero_acq, g_last_mo' +
+            ''.join(', ' + v for v in ('maxToExecute', 'maxToExe') if re.search(r'\b' + v + r'\b', m.group(1))) +
+            ''.join(', ' + v for v in sorted(set(re.findall(r'(?<![\w.>])([A-Za-z_]\w*)\s*=(?!=)', m.group(1))))) + ') __CPROVER_loop_invariant(' + ('maxToExe >= 0' if re.search(r'\bmaxToExe\b', m.group(1)) else '1') + ') {')]
 
 
 def wait_pieces(ctx):
